@@ -29,11 +29,19 @@ type presetVary struct {
 	next http.Handler
 }
 
+// The outer layer installs ONE slice per preset, shared by all the responses it decorates (the zero-allocation idiom the
+// library itself uses for its singletons): nobody downstream may write into it (appending reallocates, its capacity
+// equals its length). outerSliceIntact verifies that after every exchange
+// (lesson of seeded change C12-jJ: the middleware folding its value into the last existing Vary line in place).
 func (p presetVary) ServeHTTP(w http.ResponseWriter, r *http.Request) {
-	for _, v := range p.vals {
-		w.Header().Add("Vary", v)
+	if len(p.vals) > 0 {
+		w.Header()["Vary"] = p.vals
 	}
 	p.next.ServeHTTP(w, r)
+}
+
+func outerSliceIntact(shared, pristine []string) bool {
+	return equalStrings(shared[:len(pristine)], pristine) && len(shared) == len(pristine)
 }
 
 func serveWithPreset(mw *cors.Middleware, preset []string, q Req) Obs {
@@ -218,13 +226,20 @@ func TestVerif_C10(t *testing.T) {
 	}
 	cfgStride := pick(r, 9, 1)
 	nRand := pick(r, 6, 24)
-	presets := [][]string{nil, {"Accept-Encoding"}, {"Accept-Encoding", "Cookie, X-Pre"}, {"Origin"}, {"Access-Control-Request-Headers"}, {""},
+	pristinePresets := [][]string{nil, {"Accept-Encoding"}, {"Accept-Encoding", "Cookie, X-Pre"}, {"Origin"}, {"Access-Control-Request-Headers"}, {""},
 		{"Accept-Encoding, Origin"}, {"origin", "Access-Control-Request-Method"}, {"Access-Control-Request-Private-Network, Origin"},
 		{"X-Original-Host"}, {"Origin-Agent-Cluster"}, {"X-Origin"}, {"Access-Control-Request-Headers-X, Accept"}, {"rigin"}, {"*"},
 		{"Access-Control-Request-Headers, Access-Control-Request-Method, Access-Control-Request-Private-Network, Origin"}}
 	r.Parallel(len(prod), func(l *Local) {
 		if l.Batch < nProd && !r.visit(l.Batch, cfgStride) {
 			return
+		}
+		// this worker's outer layer: one shared slice per preset (capacity == length)
+		presets := make([][]string, len(pristinePresets))
+		for i, p := range pristinePresets {
+			if p != nil {
+				presets[i] = append(make([]string, 0, len(p)), p...)
+			}
 		}
 		c := prod[l.Batch]
 		sem := c.Sem()
@@ -329,6 +344,12 @@ func TestVerif_C10(t *testing.T) {
 				// down to the first value of each of its multi-valued headers, a successful single-line preflight naming
 				// another listed header, an ordinary actual request (at least two of these contexts differ in whatever a
 				// request-keyed memo would hold)
+				if !outerSliceIntact(preset, pristinePresets[pi]) {
+					cfg := c.Config()
+					r.Violate("outer-slice-written", "pair-monitor", fmt.Sprintf("the Vary slice %q that the outer layer shares between its responses was written to by the middleware (now %q): later responses depend on earlier requests | %s", pristinePresets[pi], preset, cfgString(&cfg)),
+						c10Case{c, debug, pristinePresets[pi], trimReq(shapes[0]), trimReq(shapes[0])})
+					copy(preset, pristinePresets[pi])
+				}
 				for _, fa := range firsts {
 					c10Check(r, l, c, mw, debug, preset, fa.q, fa.q, fa.o)
 					l.counters["pairs_same_request_later"]++
